@@ -95,6 +95,14 @@ impl Obj {
         }
         r
     }
+    pub fn poke(&mut self, off: usize, mask: &[u8]) {
+        match self {
+            Obj::Blk(o) => o.poke(off, mask),
+            Obj::Buf(o) => o.poke(off, mask),
+            Obj::Stream(o) => o.poke(off, mask),
+            Obj::Core(o) => o.poke(off, mask),
+        }
+    }
     pub fn try_clone(&self) -> Option<Obj> {
         Some(match self {
             Obj::Blk(o) => Obj::Blk(o.clone_box()),
